@@ -21,7 +21,7 @@ func XMultiSameMethod() *spec.Spec {
 
 // Extended returns the extended families (everything beyond the documented core combinations).
 func Extended(thorough bool) []*spec.Spec {
-	out := []*spec.Spec{XMultiSameMethod(), XCrossFile(), XTwoServiceFiles(), XTimestampCards(), XTimestampCardsFmt(), XEmptyOrders(), XOneofSiblings(), XSharedMethodHeader(), XQuotedHeaderTexts(), XQuotedAnnotationValues(), XForeignResponse(), XSameNamedNestedEnums(), XOneofVariantShapes(), XInt64Cards(), XHeaderNameShapes(), XParamNameClashes(), XHeaderOverrideShapes(), XUnwrapWrapperShapes(), XProto2Basic(), XSharedTypesAcrossServiceFiles(), XHeaderTypeFormat(), XNestedAnnotated(), XHeaderSpellingTypes(), XUnwrapCycles(), XTwoGoPackages()}
+	out := []*spec.Spec{XMultiSameMethod(), XCrossFile(), XTwoServiceFiles(), XTimestampCards(), XTimestampCardsFmt(), XEmptyOrders(), XOneofSiblings(), XSharedMethodHeader(), XQuotedHeaderTexts(), XQuotedAnnotationValues(), XForeignResponse(), XSameNamedNestedEnums(), XOneofVariantShapes(), XInt64Cards(), XHeaderNameShapes(), XParamNameClashes(), XHeaderOverrideShapes(), XUnwrapWrapperShapes(), XProto2Basic(), XSharedTypesAcrossServiceFiles(), XHeaderTypeFormat(), XNestedAnnotated(), XHeaderSpellingTypes(), XUnwrapCycles(), XTwoGoPackages(), XJSONNames()}
 	out = append(out, XWellKnownPositions()...)
 	out = append(out, XAnnotationCards()...)
 	out = append(out, XIdentifierShapes()...)
@@ -402,6 +402,30 @@ func XTwoGoPackages() *spec.Spec {
 			spec.RPC("GetQuote", "Req", c+"Quote", "POST", "/quote"))}}
 	s2 := &spec.Spec{Name: "x_twopkg", Files: []*spec.File{common, api}}
 	return withCell(s2, "ext/unit=two_go_packages", "extended", "valid", "codec", "multifile")
+}
+
+// XJSONNames: explicit json_name options - on plain fields of every cardinality, on path and query fields, on the members of a
+// flattened child and of a flattened / nested oneof variant, on the variant fields themselves, and on annotated fields; names that
+// differ from the default conversion, names equal to another field's PROTO name (legal: only JSON names must be distinct), names
+// with characters that need quoting in TypeScript.
+func XJSONNames() *spec.Spec {
+	msgs := []*spec.Message{
+		spec.M("Renamed", spec.F("ref", "string").JN("reference"), spec.F("reference_count", "int32").JN("refCount"), spec.F("tags", "string").Rep().JN("tag_list"),
+			spec.F("attrs", "string").Map().JN("attr-map"), spec.F("maybe", "string").Opt().JN("Maybe"), spec.F("total", "int64").I64(spec.EncNumber).JN("grand_total")),
+		spec.M("Addr", spec.F("street", "string").JN("streetLine"), spec.F("zip_code", "string").JN("zip")),
+		spec.M("FlatHolder", spec.F("id", "string").JN("ID"), spec.Msg("home", "Addr").FlatP("home_")),
+		spec.M("TextV", spec.F("body", "string").JN("text")), spec.M("ImageV", spec.F("url", "string").JN("href")),
+		spec.M("FlatOne", spec.F("id", "string"), spec.Msg("text_part", "TextV").In("content").JN("textPart"), spec.Msg("image_part", "ImageV").In("content").JN("img")).
+			WithOneof(&spec.Oneof{Name: "content", Config: true, Disc: "type", Flatten: true}),
+		spec.M("NestedOne", spec.F("id", "string"), spec.Msg("text_part", "TextV").In("content").JN("textPart"), spec.Msg("image_part", "ImageV").In("content").JN("img")).
+			WithOneof(&spec.Oneof{Name: "content", Config: true, Disc: "kind"}),
+		spec.M("Lookup", spec.F("item_id", "string").JN("id"), spec.F("page_no", "int32").Q("page").JN("pageNumber"), spec.F("note", "string").Q("note").JN("remark")),
+		spec.M("Out", spec.F("ok", "bool")),
+	}
+	svc := EchoService("JSONNameService", "Renamed", "FlatHolder", "FlatOne", "NestedOne")
+	svc.Methods = append(svc.Methods, spec.RPC("GetItem", "Lookup", "Out", "GET", "/items/{item_id}"), spec.RPC("PutItem", "Lookup", "Out", "PUT", "/items/{item_id}"))
+	f := &spec.File{Messages: msgs, Services: []*spec.Service{svc}}
+	return withCell(spec.One("x_json_names", f), "ext/unit=json_names", "extended", "valid", "codec")
 }
 
 // XUnwrapCycles: unwrap wrappers that reach themselves - a root map unwrap whose values are the wrapper itself (a dictionary of
